@@ -173,6 +173,43 @@ def part_loop(f, n_name):
     return None
 
 
+def copy_part_size_call(ctx, f):
+    """In CopySubmissionTask._submit_multipart_request: the call that computes the 'size' main kwarg of the CopyPartTask
+    (whatever the callee is called and wherever it lives). -> (call, callee FuncInfo or None)"""
+    for s_ in q.submits(ctx):
+        if s_.func is not f:
+            continue
+        for cl, ctor, _ in s_.task_ctors:
+            if cl is not None and cl.name == 'CopyPartTask' and ctor is not None:
+                mk = q.resolve_local(f, kwarg(ctor, 'main_kwargs'))
+                if isinstance(mk, ast.Dict):
+                    for k, v in zip(mk.keys, mk.values):
+                        if isinstance(k, ast.Constant) and k.value == 'size':
+                            c = q.resolve_local(f, v)
+                            if isinstance(c, ast.Call):
+                                r = ctx.r.resolve(c, f, _count=False)
+                                return c, (r.targets[0] if r.kind == 'package' and len(r.targets) == 1 else None)
+    return None, None
+
+
+def copy_part_size_cases(ctx, f):
+    """[(defining statement, value)] of the CopyPartTask 'size' kwarg when it is computed in place through locals"""
+    for s_ in q.submits(ctx):
+        if s_.func is not f:
+            continue
+        for cl, ctor, _ in s_.task_ctors:
+            if cl is not None and cl.name == 'CopyPartTask' and ctor is not None:
+                mk = q.resolve_local(f, kwarg(ctor, 'main_kwargs'))
+                if isinstance(mk, ast.Dict):
+                    for k, v in zip(mk.keys, mk.values):
+                        if isinstance(k, ast.Constant) and k.value == 'size':
+                            v = q.resolve_local(f, v)
+                            if isinstance(v, ast.Name):
+                                return [(st, d) for st, d in q.local_defs(f, v.id) if isinstance(d, ast.AST)]
+                            return [(ctor, v)]
+    return None
+
+
 def _np_names(f):
     return q.names_defined_by(f, lambda v: 'ceil(' in norm(v) or 'calculate_num_parts(' in norm(v) or 'floor(' in norm(v) or '//' in norm(v))
 
@@ -286,22 +323,67 @@ def tiling_identities(ctx):
     ctx.ob(f, 'num_parts = ceil(size / float(part_size))', len(npd) == 1 and psn is not None and _num_parts_expr_ok(npd[0], 'transfer_future.meta.size', psn), f'{[norm(v) for v in npd]}')
     pl = part_loop(f, npn[0]) if npn else None
     ctx.ob(f, 'for part_number in range(1, num_parts + 1)', pl is not None, 'every part 1..n must be copied')
-    for fn in ('calculate_range_parameter', '_get_transfer_size'):
-        cs = [c for c in own_calls(f.node) if (dotted(c.func) or '').split('.')[-1] == fn]
-        names = {'calculate_range_parameter': ('part_size', 'part_index', 'num_parts', 'total_size'),
-                 '_get_transfer_size': ('part_size', 'part_index', 'num_parts', 'total_transfer_size')}[fn]
-        gota = [q.argn(cs[0], nm, k) for k, nm in enumerate(names)] if len(cs) == 1 else None
-        got = [norm(a) for a in gota] if gota else None
-        ok = len(cs) == 1 and pl is not None and bool(npn) and None not in gota and got[0] == psn and equal(gota[1], pl[1]) \
-            and got[2] == npn[0] and got[3] == 'transfer_future.meta.size' and q.in_loop(cs[0]) is pl[0]
-        ctx.ob(f, f'{fn}(part_size, part_number - 1, num_parts, size)', ok, f'found {got}')
-    g = ctx.func('copies.CopySubmissionTask._get_transfer_size')
-    ps, pi, n, T = g.bound_params()
-    rets = [x for x in own_nodes(g.node) if isinstance(x, ast.Return)]
-    last = [x for x in rets if q.guards_imply(q.guards(x), f'{pi} == {n} - 1')]
-    rest = [x for x in rets if x not in last]
-    ok = len(last) == 1 and len(rest) == 1 and equal(last[0].value, f'{T} - {pi} * {ps}') and norm(rest[0].value) == ps
-    ctx.ob(g, 'part sizes: part_size, last = total - part_index * part_size (they sum to the total)', ok, f'{[norm(x.value) for x in rets]}')
+    cs = [c for c in own_calls(f.node) if (dotted(c.func) or '').split('.')[-1] == 'calculate_range_parameter']
+    names = ('part_size', 'part_index', 'num_parts', 'total_size')
+    gota = [q.argn(cs[0], nm, k) for k, nm in enumerate(names)] if len(cs) == 1 else None
+    got = [norm(a) for a in gota] if gota else None
+    ok = len(cs) == 1 and pl is not None and bool(npn) and None not in gota and got[0] == psn and equal(gota[1], pl[1]) \
+        and got[2] == npn[0] and got[3] == 'transfer_future.meta.size' and q.in_loop(cs[0]) is pl[0]
+    ctx.ob(f, 'calculate_range_parameter(part_size, part_number - 1, num_parts, size)', ok, f'found {got}')
+    # the function that sizes the parts (for progress): found through the 'size' kwarg of the part task; its parameters get
+    # their roles from what the call site hands them
+    sc, g = copy_part_size_call(ctx, f)
+    if sc is None:
+        # computed in place (the helper written out / de-extracted): the cases of the 'size' local, by their guards
+        cases = copy_part_size_cases(ctx, f)
+        ctx.need(cases is not None, 'the computation of the size of a copy part was not found')
+        okc = pl is not None and bool(npn) and psn is not None and bool(cases)
+        seen_last = seen_rest = False
+        for st_, v_ in cases:
+            gs_ = q.guards(st_)
+            if norm(v_) == psn and q.guards_imply(gs_, f'({pl[1]}) != {npn[0]} - 1' if pl else 'False'):
+                seen_rest = True
+            elif pl and equal(v_, f'transfer_future.meta.size - ({pl[1]}) * {psn}') and q.guards_imply(gs_, f'({pl[1]}) == {npn[0]} - 1'):
+                seen_last = True
+            else:
+                okc = False
+        ctx.ob(f, '_get_transfer_size(part_size, part_number - 1, num_parts, size)', okc and seen_last and seen_rest,
+               f'part sizes computed in place: {[(norm(v_), q.guard_texts(st_)) for st_, v_ in cases]}')
+        return
+    ctx.need(g is not None, 'the call computing the size of a copy part does not resolve to one package function')
+    b = q.bind_args(ctx, sc, f, g) or {}
+    role = {}
+    for pn_, a_ in b.items():
+        if not isinstance(a_, ast.AST):
+            continue
+        if norm(a_) == psn:
+            role['ps'] = pn_
+        elif npn and norm(a_) == npn[0]:
+            role['n'] = pn_
+        elif norm(a_) == 'transfer_future.meta.size':
+            role['T'] = pn_
+        elif pl is not None and equal(a_, pl[1]):
+            role['pi'] = pn_
+    ok = len(role) == 4 and q.in_loop(sc) is (pl[0] if pl else None)
+    ctx.ob(f, '_get_transfer_size(part_size, part_number - 1, num_parts, size)', ok, f'the part-size function is handed {sorted((k, norm(v)) for k, v in b.items() if isinstance(v, ast.AST))}')
+    if len(role) == 4:
+        ps, pi, n, T = role['ps'], role['pi'], role['n'], role['T']
+        gg = ctx.cfg(g)
+        rets = [x for x in own_nodes(g.node) if isinstance(x, ast.Return) and x.value is not None]
+        okr = bool(rets)
+        seen_last = seen_rest = False
+        for x in rets:
+            pcs = gg.path_conditions([gg.entry], gg.nodes_of(x), labels=gg.NORMAL)
+            for pc in pcs or [None]:
+                if pc is None:
+                    okr = False
+                elif norm(x.value) == ps and q.guards_imply(pc, f'{pi} != {n} - 1'):
+                    seen_rest = True
+                elif equal(x.value, f'{T} - {pi} * {ps}') and q.guards_imply(pc, f'{pi} == {n} - 1'):
+                    seen_last = True
+                else:
+                    okr = False
+        ctx.ob(g, 'part sizes: part_size, last = total - part_index * part_size (they sum to the total)', okr and seen_last and seen_rest, f'{[norm(x.value) for x in rets]}')
 
 
 def _check_ranged_loop(ctx, f, range_fn, offset_key, size_txt):
@@ -402,7 +484,7 @@ def limits_are_s3s_and_applied(ctx):
     ctx.ob(m, 'while num_parts > max_parts: chunksize *= 2; recompute num_parts; return chunksize', ok, f'loop {norm(loops[0].test) if loops else None}, returns {rets}')
     # use in the two submitters
     for qn, consumers in (('upload.UploadSubmissionTask._submit_multipart_request', ['yield_upload_part_bodies']),
-                          ('copies.CopySubmissionTask._submit_multipart_request', ['calculate_range_parameter', '_get_transfer_size'])):
+                          ('copies.CopySubmissionTask._submit_multipart_request', ['calculate_range_parameter', '<part size>'])):
         f = ctx.func(qn)
         adj = [c for c in own_calls(f.node) if (dotted(c.func) or '').endswith('adjust_chunksize')]
         ok = len(adj) == 1 and q.argn(adj[0], 'current_chunksize', 0) is not None and q.argn(adj[0], 'file_size', 1) is not None
@@ -420,7 +502,13 @@ def limits_are_s3s_and_applied(ctx):
             ctx.ob(f, n, False, 'a submission task must not modify the manager-wide config')
         gf = ctx.cfg(f)
         for cn in consumers:
-            for c in [c for c in own_calls(f.node) if (dotted(c.func) or '').split('.')[-1] == cn]:
+            if cn == '<part size>':
+                sc_, _g = copy_part_size_call(ctx, f)
+                cands = [sc_] if sc_ is not None else []
+                cn = '_get_transfer_size'
+            else:
+                cands = [c for c in own_calls(f.node) if (dotted(c.func) or '').split('.')[-1] == cn]
+            for c in cands:
                 uses = any(isinstance(a, ast.Name) and a.id == rv for a in list(c.args) + [k.value for k in c.keywords])
                 after = bool(adj) and gf.all_dominate(gf.nodes_of(adj[0]), gf.nodes_of(c), gf.NORMAL)
                 ctx.ob(f, f'{cn}(...) uses the adjusted chunk size ({rv})', uses and after, 'parts must be planned with the adjusted size, otherwise > 10 000 parts or parts < 5 MiB are produced')
